@@ -92,6 +92,15 @@ class C08(XsProp):
                 for b in bodies:
                     src = ' '.join([' '.join(str(i + 1) for i in range(k)), o, b, c]).strip()
                     cs.append('xp limits 600 80 40 | eval %s | pretty | eval %s | pretty' % (hexsrc(src), hexsrc('1 2 + depth')))
+        # (b''') closers of one evaluation context met inside another: a meta block (or a definition, a builder) opened inside an open
+        # construct and containing only the closing word of that construct, and the other way round
+        outer = ['true if', '1 case', '1 case 1 of', 'begin', 'begin 1 while', '3 0 do', ': q', '[', '{', '^{', '[ 1 2 ] foreach', '[ 1 ] let [']
+        closers = ['then', 'else', 'endcase', 'endof', 'of', 'repeat', 'until', 'loop', ';', ']', '}', '^}', 'break', 'while', '#)', '~)']
+        for o_ in outer:
+            for c_ in closers:
+                for wrap in ('#( %s #)', '#( 1 %s #)', ': w %s ;', '[ %s ]', '#( #( %s #) #)'):
+                    src = '%s %s 2 then' % (o_, wrap % c_)
+                    cs.append('xp limits 600 80 40 | eval %s | pretty | eval %s | pretty' % (hexsrc(src), hexsrc('1 2 + depth')))
         # (b'') the cursor variables written directly (input replaced by a shorter one, offset beyond the end, non-bit-string input,
         # negative / huge offset), then every reading word
         readers = ['u8', 'i16le', '3 bits', '2 bytes', '5 int', '5 uint', 'f32', '32 float', '|ff| magic', 'nulbytestr', 'cstr', 'remain', 'offset',
